@@ -1019,6 +1019,28 @@ func subOptionWires(rng *rand.Rand) [][]byte {
 	}
 	out = append(out, msg(56, sub(3, name)), msg(56, sub(3, []byte{3, 'n', 't', 'p'})), msg(56, sub(3, nil)), msg(56, sub(9, []byte{1, 2, 3})),
 		msg(56, append(sub(1, addrs[0]), sub(1, addrs[0])...)), msg(56, append(sub(3, name), sub(3, name)...)), msg(56, nil), msg(56, []byte{0, 1, 0}))
+	// relay headers whose link and peer addresses are of every kind an address can be (link-local with the zone some stacks
+	// leave in octets 2-3, site-local, multicast, mapped, 6to4, unspecified, loopback): sixteen octets each, read as they are
+	specials := []string{"fe80:4::1", "fe80::1", "fe80:ffff::2", "fec0::1", "ff02::1:2", "::ffff:10.0.0.1", "2002:c000:204::1", "::", "::1", "fe80:0:1::"}
+	for i, a := range specials {
+		b := specials[(i+3)%len(specials)]
+		inner := []byte{1, 9, 9, byte(i), 0, 8, 0, 2, 0, 0}
+		hdr := append(append([]byte{12, byte(i)}, net.ParseIP(a).To16()...), net.ParseIP(b).To16()...)
+		w := append(append(hdr, 0, 9, 0, byte(len(inner))), inner...)
+		out = append(out, w)
+		hdr2 := append(append([]byte{13, byte(i + 1)}, net.ParseIP(b).To16()...), net.ParseIP(a).To16()...)
+		out = append(out, append(append(hdr2, 0, 9, byte(len(w)>>8), byte(len(w))), w...))
+	}
+	// many options without a type in one container (8, 9, 12, 40 of them), at the top level and inside an identity association
+	for _, cnt := range []int{8, 9, 12, 40} {
+		var opts []byte
+		for k := 0; k < cnt; k++ {
+			opts = append(opts, sub(60000+k, []byte{byte(k), 'u', 'n', 'k', byte(cnt)})...)
+		}
+		out = append(out, append([]byte{7, 5, 6, 7}, opts...))
+		ia := append([]byte{1, 2, 3, 4, 0, 0, 14, 16, 0, 0, 28, 32}, opts...)
+		out = append(out, msg(3, ia))
+	}
 	// a 4RD option that holds other options than its two rules (codes that mean something at the top level, codes that mean nothing)
 	rule0 := append([]byte{24, 64, 8, 0, 10, 1, 2, 3}, net.ParseIP("2001:db8:aa::")...)
 	out = append(out, msg(97, sub(1, []byte{0, 3, 0, 1, 2, 0, 0, 0, 0, 9})), msg(97, append(sub(98, rule0), sub(200, []byte("opaque inside 4rd"))...)),
